@@ -121,7 +121,15 @@ Proof. intros H. apply safe_write. exact H. Qed.
 Lemma safe_remove_from_context sp k : is_loc sp -> safe (remove_from_context sp k) T.
 Proof.
   intros H. unfold remove_from_context. eapply safe_bind; [apply safe_read|]. intros d _.
-  destruct (aget d k); [apply safe_write; exact H|apply safe_throw].
+  destruct (aget d k); [apply safe_write; exact H|].
+  destruct remove_tolerant; [apply safe_ret; exact I|apply safe_throw].
+Qed.
+
+Lemma safe_leave_loop sp k sh : is_loc sp -> safe (leave_loop sp k sh) T.
+Proof.
+  intros H. unfold leave_loop.
+  destruct loop_scope_policy; [apply safe_remove_from_context; exact H|].
+  destruct sh; [apply safe_add_to_context; exact H|apply safe_remove_from_context; exact H].
 Qed.
 
 Lemma safe_render_cell sp c : safe (render_cell sp c) T.
@@ -165,6 +173,30 @@ Section frow_ind2.
     end.
 End frow_ind2.
 
+Lemma safe_skip_frow : forall r, safe (skip_frow r) T.
+Proof.
+  induction r as [n c|n g i|n f i|v its body IHb| |] using frow_ind2; cbn [skip_frow];
+    try apply safe_with_tt.
+  - eapply safe_bind; [apply safe_with_tt|]. intros _ _.
+    eapply safe_bind with (Q := T); [|intros _ _; apply safe_with_tt].
+    induction IHb as [|x t Hx Ht IHt]; [apply safe_ret; exact I|].
+    eapply safe_bind; [apply Hx|]. intros _ _. apply IHt.
+  - apply safe_with, safe_throw.
+Qed.
+
+Lemma safe_skip_frows : forall b, safe (skip_frows b) T.
+Proof.
+  induction b as [|r b IH]; cbn [skip_frows]; [apply safe_ret; exact I|].
+  eapply safe_bind; [apply safe_skip_frow|]. intros _ _. apply IH.
+Qed.
+
+Lemma safe_skip_empty_body its body : safe (skip_empty_body its body) T.
+Proof.
+  unfold skip_empty_body. destruct its; [|apply safe_ret; exact I].
+  destruct empty_loop_policy; [apply safe_ret; exact I|].
+  eapply safe_bind; [apply safe_skip_frows|]. intros _ _. apply safe_with_tt.
+Qed.
+
 Lemma safe_parse_frow : forall r sp a, is_loc sp -> safe (parse_frow sp r a) T.
 Proof.
   induction r as [n c|n g i|n f i|v its body IHb| |] using frow_ind2; intros sp a Hsp; cbn [parse_frow].
@@ -179,6 +211,7 @@ Proof.
     + destruct i; [apply safe_ret; exact I|apply safe_lift_rec_f].
     + intros c1 _. eapply safe_bind; [apply safe_node_uuid|]. intros u _. apply safe_ret. exact I.
   - eapply safe_bind; [apply safe_with_tt|]. intros _ _.
+    eapply safe_bind; [apply safe_read|]. intros d0 _.
     eapply safe_bind with (Q := T).
     + (* the iterations *)
       revert a. induction its as [|it rest IHits]; intros a.
@@ -189,7 +222,8 @@ Proof.
            ++ apply safe_ret. exact I.
            ++ eapply safe_bind; [apply Hx; exact Hsp|]. intros a1 _. apply IHt.
         -- intros a' _. eapply safe_bind; [apply safe_with_tt|]. intros _ _. apply IHits.
-    + intros a1 _. eapply safe_bind; [apply safe_remove_from_context; exact Hsp|]. intros _ _.
+    + intros a1 _. eapply safe_bind; [apply safe_skip_empty_body|]. intros _ _.
+      eapply safe_bind; [apply safe_leave_loop; exact Hsp|]. intros _ _.
       apply safe_ret. exact I.
   - apply safe_with, safe_throw.
   - eapply safe_bind; [apply safe_with_tt|]. intros _ _. apply safe_with, safe_throw.
